@@ -4,13 +4,13 @@
    controller.notify.is_last_output_of, the output names and placeholders of fluent.Node),
    Graph/GStore.v + Graph/Export.v (Graph.nodes, serialise), Util/StrOrd.v (byte-wise sort).
    The model is of the fix-carrying worktree (bd210aa exhaustion check, 40ef9de repeated
-   placeholder, 7328005 zero-padded fluent output names).
+   placeholder, 7328005 zero-padded fluent output names, 62ec2b5 single-output generators).
    Every theorem holds for ALL callables F, opaque objects D and call behaviours
    `call : F -> args -> kwargs -> raises | returns v (not iterable | yields ys then stops/raises)`,
    all graphs, arities, argument orders and numbers of outputs. *)
 From Coq Require Import List String Bool Arith NArith Lia.
 From EKW Require Import Graph.GStore Graph.Export Util.StrOrd Low.Into Low.Runner
-  Low.RunnerOrdProofs Low.RunnerProofs Low.IntoProofs Low.RunnerArgsProofs.
+  Low.RunnerOrdProofs Low.RunnerProofs Low.IntoProofs Low.RunnerArgsProofs Low.IntoSourceProofs.
 From EKW Require Low.RunnerCheck.
 Import ListNotations.
 Open Scope string_scope.
@@ -49,13 +49,31 @@ Theorem C10_one_edge_per_input :
     List.length (vedges F D v) = List.length (vins v).
 Proof. exact vedges_one_per_input. Qed.
 
-(* (3) When the task of a node runs with the positional sources its edges describe, the
-   callable receives exactly the declared arguments: every argument that names an input is
-   replaced by the value stored for that input's parent output, every other argument (None,
-   other strings, objects) is passed as is, in the declared positions, with the declared
-   keyword arguments.  `_partial`: that views.param_source regroups the node's edges into
-   exactly `vsrc args (vins v)` is checked by the correspondence run, not proved here. *)
-Theorem C10_call_args_correct_partial :
+(* (3) For every node of every graph: after graph2job and param_source, when the node's task
+   runs with the values of its inputs' parent outputs in memory, the callable of the node
+   receives exactly the declared arguments: every argument that names an input is replaced by
+   the value stored for that input's parent output, every other argument (None, other strings,
+   objects) is passed as is, in the declared positions, with the declared keyword arguments. *)
+Theorem C10_call_args_correct :
+  forall F D (g : graph (payload F D)) vs j (v : vnode (payload F D)) f args kwargs (m : memory D),
+    vnodes g = Ok vs -> graph2job g = Ok j -> In v vs ->
+    vpay v = Some (PayTuple f args kwargs) -> NoDup (map fst (vins v)) ->
+    (forall pi, In pi (vins v) -> provide m (snd pi) <> None) ->
+    exists ps t, param_source (j_edges j) = Ok ps /\ lookup (vname v) (j_tasks j) = Some t /\
+      t_func t = f /\
+      bound_args t (psrc_of ps (vname v)) m = Ok (spec_args D args (vins v) m, kwargs).
+Proof. exact call_args_pipeline. Qed.
+
+(* (3') the two halves of (3): param_source gives a node's task exactly the (position, source)
+   list of its placeholders, and with that list the lowered task binds the declared arguments *)
+Theorem C10_param_source_of_node :
+  forall F D (g : graph (payload F D)) vs j (v : vnode (payload F D)) f args kwargs,
+    vnodes g = Ok vs -> graph2job g = Ok j -> In v vs ->
+    vpay v = Some (PayTuple f args kwargs) -> NoDup (map fst (vins v)) ->
+    exists ps, param_source (j_edges j) = Ok ps /\ psrc_of ps (vname v) = vsrc D args (vins v).
+Proof. exact param_source_of_node. Qed.
+
+Theorem C10_call_args_of_lowered_task :
   forall F D (v : vnode (payload F D)) f args kwargs (m : memory D),
     NoDup (map fst (vins v)) ->
     (forall pi, In pi (vins v) -> provide m (snd pi) <> None) ->
@@ -63,49 +81,53 @@ Theorem C10_call_args_correct_partial :
       Ok (spec_args D args (vins v) m, kwargs).
 Proof. exact bound_args_vtask. Qed.
 
-(* (4) A task with n >= 2 declared outputs whose callable yields exactly n values: run
-   returns normally and the i-th yielded value is handed to Memory.handle under the i-th
-   output in key-sorted order (the documented contract), as the i-th handle call. *)
+(* (4) A task whose results are unpacked (n >= 2 declared outputs, or n >= 1 and the callable
+   returned a generator) and whose callable yields exactly n values: run returns normally and
+   the i-th yielded value is handed to Memory.handle under the i-th output in key-sorted
+   order (the documented contract), as the i-th handle call. *)
 Theorem C10_yield_binding :
   forall F D (call : F -> list (pval D) -> list (string * pval D) -> cres D)
-         tid (t : @task F D) src publish m args kwargs v ys,
-    multi F D t -> bound_args t src m = Ok (args, kwargs) ->
-    call (t_func t) args kwargs = CRet v (Iter ys None) ->
+         tid (t : @task F D) src publish m args kwargs v gn ys,
+    bound_args t src m = Ok (args, kwargs) ->
+    call (t_func t) args kwargs = CRet v (Iter gn ys None) -> unpacked F D t (Iter gn ys None) ->
     List.length ys = List.length (t_oschema t) ->
     exists hs, run_task call tid t src publish m = (hs, Ok tt) /\
       List.length hs = List.length ys /\
       forall i k s y, nth_error (sort_by_key (t_oschema t)) i = Some (k, s) -> nth_error ys i = Some y ->
         nth_error hs i = Some ((tid, k), y, in_publish (tid, k) publish).
 Proof.
-  intros F D call tid t src publish m args kwargs v ys Hm Hb Hc Hl.
-  eexists. split; [exact (run_task_binds_yields F D call _ _ _ _ _ _ _ _ _ Hm Hb Hc Hl)|]. split.
+  intros F D call tid t src publish m args kwargs v gn ys Hb Hc Hu Hl.
+  eexists. split; [exact (run_task_binds_yields F D call _ _ _ _ _ _ _ _ _ _ Hb Hc Hu Hl)|]. split.
   - unfold stores. rewrite map_length, combine_length, sort_length, Hl. apply Nat.min_id.
   - intros i k s y. apply nth_error_stores.
 Qed.
 
-(* (5) Fluent: a node created with num_outputs = n >= 2 (yields of n coordinates) has the
-   outputs out_names n; coordinate i is Output(node, out_names[i]); the i-th yielded value is
-   stored under exactly that output -- for every n, in particular n > 10.
-   `_partial`: n = 1 is excluded, see C10_single_coordinate_yields_refuted. *)
-Theorem C10_fluent_yield_binding_partial :
+(* (5) Fluent: a node created with num_outputs = n >= 1 (yields of n coordinates) has the
+   outputs fluent_outputs n; coordinate i is Output(node, fluent_outputs n [i]); the i-th value
+   the generator yields is stored under exactly that output -- for every n, in particular
+   n > 10 and n = 1 (for n >= 2 any iterable is unpacked, for n = 1 a generator is). *)
+Theorem C10_fluent_yield_binding :
   forall F D (call : F -> list (pval D) -> list (string * pval D) -> cres D)
-         n tid (t : @task F D) src publish m args kwargs v ys,
-    2 <= n -> t_oschema t = schema_of (fluent_outputs n) ->
+         n tid (t : @task F D) src publish m args kwargs v gn ys,
+    1 <= n -> (n = 1 -> gn = true) -> t_oschema t = schema_of (fluent_outputs n) ->
     bound_args t src m = Ok (args, kwargs) ->
-    call (t_func t) args kwargs = CRet v (Iter ys None) ->
+    call (t_func t) args kwargs = CRet v (Iter gn ys None) ->
     List.length ys = n ->
     exists hs, run_task call tid t src publish m = (hs, Ok tt) /\
       forall i y, nth_error ys i = Some y ->
         exists o, nth_error (fluent_outputs n) i = Some o /\
                   nth_error hs i = Some ((tid, o), y, in_publish (tid, o) publish).
 Proof.
-  intros F D call n tid t src publish m args kwargs v ys Hn Ho Hb Hc Hl.
+  intros F D call n tid t src publish m args kwargs v gn ys Hn Hg Ho Hb Hc Hl.
   assert (Hf : fluent_outputs n = out_names n).
-  { unfold fluent_outputs. destruct (Nat.eqb n 1) eqn:E; [apply Nat.eqb_eq in E; lia|reflexivity]. }
+  { unfold fluent_outputs. destruct (Nat.eqb n 1) eqn:E; [apply Nat.eqb_eq in E; rewrite E; reflexivity|reflexivity]. }
   assert (Hlen : List.length (t_oschema t) = n).
   { rewrite Ho, Hf, schema_of_nodup by apply out_names_nodup. rewrite map_length. apply out_names_length. }
-  assert (Hm : multi F D t) by (unfold multi; rewrite Hlen; exact Hn).
-  eexists. split; [apply (run_task_binds_yields F D call _ _ _ _ _ _ _ _ _ Hm Hb Hc); rewrite Hlen; exact Hl|].
+  assert (Hu : unpacked F D t (Iter gn ys None)).
+  { destruct (Nat.eq_dec n 1) as [E|E].
+    - right. split; [intros H0; rewrite H0 in Hlen; cbn in Hlen; lia|]. rewrite (Hg E). eauto.
+    - left. unfold multi. rewrite Hlen. lia. }
+  eexists. split; [apply (run_task_binds_yields F D call _ _ _ _ _ _ _ _ _ _ Hb Hc Hu); rewrite Hlen; exact Hl|].
   intros i y Hy.
   assert (Hi : i < n) by (rewrite <- Hl; apply nth_error_Some; rewrite Hy; discriminate).
   exists (pad_dec (dec_width (n - 1)) i). rewrite Hf. split; [apply nth_out_names; exact Hi|].
@@ -117,9 +139,9 @@ Qed.
    iterator that raises -- makes run end in an error, never in a normal return ... *)
 Theorem C10_count_mismatch_fails :
   forall F D (call : F -> list (pval D) -> list (string * pval D) -> cres D)
-         tid (t : @task F D) src publish m args kwargs v ys fin,
-    multi F D t -> bound_args t src m = Ok (args, kwargs) ->
-    call (t_func t) args kwargs = CRet v (Iter ys fin) ->
+         tid (t : @task F D) src publish m args kwargs v gn ys fin,
+    bound_args t src m = Ok (args, kwargs) ->
+    call (t_func t) args kwargs = CRet v (Iter gn ys fin) -> unpacked F D t (Iter gn ys fin) ->
     List.length ys <> List.length (t_oschema t) \/ fin <> None ->
     exists e, snd (run_task call tid t src publish m) = Err e.
 Proof. exact run_task_count_mismatch_fails. Qed.
@@ -131,8 +153,8 @@ Theorem C10_run_ok_iff_counts_agree :
          tid (t : @task F D) src publish m args kwargs,
     multi F D t -> bound_args t src m = Ok (args, kwargs) ->
     (snd (run_task call tid t src publish m) = Ok tt <->
-     exists v ys, call (t_func t) args kwargs = CRet v (Iter ys None) /\
-                  List.length ys = List.length (t_oschema t)).
+     exists v gn ys, call (t_func t) args kwargs = CRet v (Iter gn ys None) /\
+                     List.length ys = List.length (t_oschema t)).
 Proof. exact run_task_multi_ok_iff. Qed.
 
 (* (7) Completion is inferred by the controller from the key-sorted last output: in a run that
@@ -147,19 +169,15 @@ Theorem C10_last_output_consistent :
       forall h', In h' hs' -> is_last_output_of (fst (fst h')) tasks = Ok false.
 Proof. exact last_handled_is_last_output. Qed.
 
-(* (8) The full statement of (5) for n >= 1 is false at n = 1: a fluent node with yields of
-   ONE coordinate has the single default output, and the runner stores the returned
-   (generator) object itself under it, not the value it yields. *)
-Theorem C10_single_coordinate_yields_refuted :
-  exists (call : unit -> list (pval nat) -> list (string * pval nat) -> cres nat) (t : @task unit nat) y v,
-    t_oschema t = schema_of (fluent_outputs 1) /\
-    call (t_func t) [] [] = CRet v (Iter [y] None) /\ v <> y /\
-    run_task call "t" t [] [] [] = ([(("t", "0"), v, false)], Ok tt).
-Proof.
-  exists (fun _ _ _ => CRet (PObj 0) (Iter [PObj 1] None)),
-         (mkT tt [] (schema_of (fluent_outputs 1)) [] []), (PObj 1), (PObj 0).
-  repeat split; try reflexivity. discriminate.
-Qed.
+(* (8) A single declared output and a callable that returns anything but a generator (a
+   plain value, a tuple, a list): the returned object itself is that output's value. *)
+Theorem C10_single_output_value :
+  forall F D (call : F -> list (pval D) -> list (string * pval D) -> cres D)
+         tid (t : @task F D) src publish m args kwargs k s v it,
+    t_oschema t = [(k, s)] -> bound_args t src m = Ok (args, kwargs) ->
+    call (t_func t) args kwargs = CRet v it -> (forall ys fin, it <> Iter true ys fin) ->
+    run_task call tid t src publish m = ([((tid, k), v, in_publish (tid, k) publish)], Ok tt).
+Proof. exact run_task_single. Qed.
 
 (* ------------------------------------------------------------------ non-vacuity *)
 Import EKW.Low.RunnerCheck.
@@ -194,7 +212,7 @@ Proof. split; [intros pi [<-|[<-|[]]]; reflexivity|reflexivity]. Qed.
 
 Definition ex_mem : memory obj := [(("s", "00"), PObj (OYield 0 0)); (("s", "11"), PObj (OYield 0 11))].
 
-Example C10_call_args_correct_nonvacuous :
+Example C10_call_args_of_lowered_task_nonvacuous :
   NoDup (map fst (vins ex_c)) /\ (forall pi, In pi (vins ex_c) -> provide ex_mem (snd pi) <> None) /\
   spec_args obj [PStr "x"; PNone; PStr "y"; PStr "x"; PStr "q"; PObj (OLit 3)] (vins ex_c) ex_mem =
     [PObj (OYield 0 0); PNone; PObj (OYield 0 11); PObj (OYield 0 0); PStr "q"; PObj (OLit 3)].
@@ -206,20 +224,49 @@ Qed.
 Definition ex_s : ctask := mkT 0%N [] (schema_of (fluent_outputs 12)) [] [].
 
 Example C10_yield_binding_nonvacuous :
-  multi N obj ex_s /\ bound_args ex_s [] [] = Ok ([], []) /\
-  c_call ex_behs 0%N [] [] = CRet (PObj (ORet 0)) (Iter (yields_of 0 12) None) /\
+  unpacked N obj ex_s (Iter true (yields_of 0 12) None) /\ bound_args ex_s [] [] = Ok ([], []) /\
+  c_call ex_behs 0%N [] [] = CRet (PObj (ORet 0)) (Iter true (yields_of 0 12) None) /\
   List.length (yields_of 0 12) = List.length (t_oschema ex_s) /\
   nth_error (fst (run_task (c_call ex_behs) "s" ex_s [] [("s", "10")] [])) 10 = Some (("s", "10"), PObj (OYield 0 10), true).
-Proof. repeat split; vm_compute; try reflexivity; lia. Qed.
+Proof. split; [left; unfold multi; vm_compute; lia|]. repeat split; vm_compute; reflexivity. Qed.
+
+(* the whole pipeline on ex_graph: node c receives yields 0 and 11 of s at positions 0, 2, 3 *)
+Example C10_call_args_correct_nonvacuous :
+  exists vs j ps t, vnodes ex_graph = Ok vs /\ graph2job ex_graph = Ok j /\ In ex_c vs /\
+    param_source (j_edges j) = Ok ps /\ lookup "c" (j_tasks j) = Some t /\
+    bound_args t (psrc_of ps "c") ex_mem =
+      Ok ([PObj (OYield 0 0); PNone; PObj (OYield 0 11); PObj (OYield 0 0); PStr "q"; PObj (OLit 3)], [("k", PObj (OLit 1))]).
+Proof.
+  do 4 eexists. split; [vm_compute; reflexivity|]. split; [vm_compute; reflexivity|].
+  split; [left; reflexivity|]. split; [vm_compute; reflexivity|]. split; vm_compute; reflexivity.
+Qed.
+
+Example C10_param_source_of_node_nonvacuous :
+  vsrc obj [PStr "x"; PNone; PStr "y"; PStr "x"; PStr "q"; PObj (OLit 3)] (vins ex_c) =
+    [(KPos 0, ("s", "00")); (KPos 3, ("s", "00")); (KPos 2, ("s", "11"))].
+Proof. reflexivity. Qed.
+
+(* one coordinate: the single default output receives the value the generator yields *)
+Definition ex_one : ctask := mkT 0%N [] (schema_of (fluent_outputs 1)) [] [].
+Example C10_fluent_yield_binding_one_coordinate :
+  fluent_outputs 1 = ["0"] /\
+  run_task (c_call [(0%N, BGen 1 None)]) "s" ex_one [] [] [] = ([(("s", "0"), PObj (OYield 0 0), false)], Ok tt) /\
+  snd (run_task (c_call [(0%N, BGen 2 None)]) "s" ex_one [] [] []) = Err "ValueError" /\
+  run_task (c_call [(0%N, BTuple 2)]) "s" ex_one [] [] [] = ([(("s", "0"), PObj (ORet 0), false)], Ok tt).
+Proof. repeat split; vm_compute; reflexivity. Qed.
+
+Example C10_single_output_value_nonvacuous :
+  t_oschema ex_one = [("0", "Any")] /\ c_call [(0%N, BTuple 2)] 0%N [] [] = CRet (PObj (ORet 0)) (Iter false (yields_of 0 2) None).
+Proof. split; vm_compute; reflexivity. Qed.
 
 Example C10_fluent_yield_binding_nonvacuous :
-  2 <= 12 /\ t_oschema ex_s = schema_of (fluent_outputs 12) /\ nth_error (fluent_outputs 12) 2 = Some "02" /\
+  1 <= 12 /\ t_oschema ex_s = schema_of (fluent_outputs 12) /\ nth_error (fluent_outputs 12) 2 = Some "02" /\
   nth_error (fst (run_task (c_call ex_behs) "s" ex_s [] [] [])) 2 = Some (("s", "02"), PObj (OYield 0 2), false).
 Proof. repeat split; vm_compute; try reflexivity; lia. Qed.
 
 (* one value too few: the defect the unfixed runner let through *)
 Example C10_count_mismatch_fails_nonvacuous :
-  c_call [(0%N, BGen 11 None)] 0%N [] [] = CRet (PObj (ORet 0)) (Iter (yields_of 0 11) None) /\
+  c_call [(0%N, BGen 11 None)] 0%N [] [] = CRet (PObj (ORet 0)) (Iter true (yields_of 0 11) None) /\
   List.length (yields_of 0 11) <> List.length (t_oschema ex_s) /\
   snd (run_task (c_call [(0%N, BGen 11 None)]) "s" ex_s [] [] []) = Err "ValueError".
 Proof. repeat split; vm_compute; try reflexivity; discriminate. Qed.
@@ -239,10 +286,12 @@ Proof. repeat split; vm_compute; reflexivity. Qed.
 Print Assumptions C10_lowering_shape.
 Print Assumptions C10_edge_per_placeholder.
 Print Assumptions C10_one_edge_per_input.
-Print Assumptions C10_call_args_correct_partial.
+Print Assumptions C10_call_args_correct.
+Print Assumptions C10_param_source_of_node.
+Print Assumptions C10_call_args_of_lowered_task.
 Print Assumptions C10_yield_binding.
-Print Assumptions C10_fluent_yield_binding_partial.
+Print Assumptions C10_fluent_yield_binding.
 Print Assumptions C10_count_mismatch_fails.
 Print Assumptions C10_run_ok_iff_counts_agree.
 Print Assumptions C10_last_output_consistent.
-Print Assumptions C10_single_coordinate_yields_refuted.
+Print Assumptions C10_single_output_value.
